@@ -127,7 +127,7 @@ class EnvTranslator:
                              term, defaults))
                 extra.append(name)
             except Untranslatable as e:
-                skipped[name] = str(e) + (' (the first construct met; the body also has two while-True loops)'
+                skipped[name] = str(e) + (' (the first construct met; the body also has two while-True loops: the function is tied in group env2, src_env2.py)'
                                           if name == 'date_bin' else '')
             except Exception as e:  # noqa: BLE001  (no theorem depends on these: report, do not fail)
                 skipped[name] = repr(e)
